@@ -34,8 +34,8 @@ import (
 	"google.golang.org/protobuf/reflect/protoreflect"
 	"google.golang.org/protobuf/reflect/protoregistry"
 	"google.golang.org/protobuf/types/descriptorpb"
-	"google.golang.org/protobuf/types/known/anypb"
 	"google.golang.org/protobuf/types/dynamicpb"
+	"google.golang.org/protobuf/types/known/anypb"
 )
 
 type c10Type struct {
@@ -49,12 +49,13 @@ type c10Case struct {
 	Calls map[string][]string `json:"calls"` // proc -> root types
 	Hist  [][]string          `json:"hist"`  // forced schedule: [proc, label, key]
 	// stress
-	Goroutines int   `json:"goroutines"`
-	PerG       int   `json:"per_g"`
-	Seed       int64 `json:"seed"`
-	Warm       bool  `json:"warm"`
-	Global     bool  `json:"global"`
-	Log        bool  `json:"log"`
+	Goroutines int    `json:"goroutines"`
+	Mix        string `json:"mix"` // c10rich: "" = encode / decode / query at random, "dec" = decodes only
+	PerG       int    `json:"per_g"`
+	Seed       int64  `json:"seed"`
+	Warm       bool   `json:"warm"`
+	Global     bool   `json:"global"`
+	Log        bool   `json:"log"`
 }
 
 // buildGraphTypes makes one proto file per package with a message per type:
@@ -595,7 +596,7 @@ func c10Rich(raw json.RawMessage) *Out {
 	if err := json.Unmarshal(raw, &c); err != nil {
 		return &Out{Skip: "bad case: " + err.Error()}
 	}
-	out := &Out{Nontrivial: true, Key: fmt.Sprintf("rich-%d-%v-%v-%d-%d", c.Seed, c.Warm, c.Global, c.Goroutines, c.PerG)}
+	out := &Out{Nontrivial: true, Key: fmt.Sprintf("rich-%d-%v-%v-%d-%d-%s", c.Seed, c.Warm, c.Global, c.Goroutines, c.PerG, c.Mix)}
 	msg := &schema_testpb.FullSchema{}
 	if err := protojson.Unmarshal([]byte(richProtoJSON), msg); err != nil {
 		return &Out{Skip: "cannot build FullSchema: " + err.Error()}
@@ -670,7 +671,11 @@ func c10Rich(raw json.RawMessage) *Out {
 	plan := make([][]int, c.Goroutines)
 	for g := range plan {
 		for i := 0; i < c.PerG; i++ {
-			plan[g] = append(plan[g], rng.Intn(3))
+			k := rng.Intn(3)
+			if c.Mix == "dec" {
+				k = 1
+			}
+			plan[g] = append(plan[g], k)
 		}
 	}
 	bad := make([]string, c.Goroutines)
